@@ -30,6 +30,9 @@ import JRV.Lemmas.Server
 import JRV.Lemmas.JsonTextTable
 import JRV.Model.Client
 import JRV.Model.JsonText
+import JRV.Lemmas.JsonTextWs
+import JRV.Lemmas.JsonTextGarbage
+import JRV.Lemmas.ByteBody
 
 set_option linter.unusedSimpArgs false
 set_option linter.unusedVariables false
@@ -190,6 +193,110 @@ example : ∀ t, t ≠ [] → JsonText.verdict t = .malformed →
 example : JsonText.verdict ['n', 'u', 'l', 'l'] = .wellFormed := by decide +kernel
 example : (marshaledDispatchBody { cfg := {} } false (.parsed .none)).1
     = .ok (.doc (Payload.error 20 .none (.int (-32600)) (.str msgNoData) .none)) := by decide +kernel
+
+/- ---------- the text layer: white space, first character, bodies as bytes ---------- -/
+
+/-- `JSON-text = ws value ws`: SP, TAB, LF, CR before and after the top-level value do not change the verdict
+    (`JRV.Lemmas.JsonTextWs`, by fuel-independence of the recogniser): a request wrapped in insignificant
+    white space is malformed exactly when the bare request is.  (Real parser: the ws/… twins of
+    harness/servercases_ws.py, which must be handled exactly as their bare requests.) -/
+theorem C05_text_ws_wrap (pre t post : List Char) (hpre : JsonText.allWs pre = true) (hpost : JsonText.allWs post = true) :
+    JsonText.verdict (pre ++ t ++ post) = JsonText.verdict t :=
+  JsonText.verdict_ws_wrap pre t post hpre hpost
+
+/-- The parser must consume the whole body: a complete array, object (every request is one) or string followed by
+    anything that is not white space — a word, a second value, a closing bracket, a comma, NUL, U+FEFF, … — is not a
+    JSON text (`JRV.Lemmas.JsonTextGarbage`, by prefix-determinism of the recogniser), so it is answered −32700 with
+    nothing invoked.  (A parser that stops after the first value — `JSONDecoder.raw_decode` — would run the request.)
+    Numbers and literals are excluded on purpose: `1` followed by `2` is the JSON text `12`. -/
+theorem C05_text_trailing_garbage (s : Server) (loads : List Char → ParseOutcome)
+    (hstrict : ∀ t, t ≠ [] → JsonText.verdict t = .malformed → loads t = .parseError)
+    (t : List Char) (g : Char) (rest : List Char)
+    (ht : JsonText.verdict t = .wellFormed) (hs : JsonText.startsClosed t = true) (hg : JsonText.isWs g = false) :
+    JsonText.verdict (t ++ g :: rest) = .malformed ∧
+    marshaledDispatchBody s (t ++ g :: rest).isEmpty (loads (t ++ g :: rest)) =
+      (.ok (.doc (Payload.error s.cfg.version .none (.int (-32700)) (.str msgParse) .none)), []) :=
+  ⟨JsonText.verdict_trailing_garbage t g rest ht hs hg,
+   C05_malformed_text s loads hstrict _ (JsonText.verdict_trailing_garbage t g rest ht hs hg)⟩
+
+/-- A text that starts with a character no JSON text can start with — anything but white space, `"`, `[`, `{`,
+    `t`, `f`, `n`, `-`, a digit; in particular U+FEFF (a byte-order mark), NUL and every character beyond
+    ASCII — is malformed whatever follows, and is answered −32700 with nothing invoked. -/
+theorem C05_text_first_char (s : Server) (loads : List Char → ParseOutcome)
+    (hstrict : ∀ t, t ≠ [] → JsonText.verdict t = .malformed → loads t = .parseError)
+    (c : Char) (cs : List Char) (hc : ByteBody.canStart c = false) :
+    JsonText.verdict (c :: cs) = .malformed ∧
+    marshaledDispatchBody s (c :: cs).isEmpty (loads (c :: cs)) =
+      (.ok (.doc (Payload.error s.cfg.version .none (.int (-32700)) (.str msgParse) .none)), []) :=
+  ⟨ByteBody.verdict_bad_first_char c cs hc,
+   C05_malformed_text s loads hstrict (c :: cs) (ByteBody.verdict_bad_first_char c cs hc)⟩
+
+/-- Bodies as bytes.  The HTTP handler decodes with the strict UTF-8 codec (`Wire.fromBytes`, fact
+    `fromBytesCodec`), which drops nothing: the text of a body that starts with the bytes EF BB BF starts
+    with U+FEFF.  So every body `BOM ++ request` — whatever the request — is malformed: the text handed
+    to the dispatcher is `"\uFEFF" ++ t`, and it is answered −32700 with nothing invoked.  (A decoder that
+    swallows the mark — `utf-8-sig` — would run the request.) -/
+theorem C05_body_bom_malformed (t : String) :
+    Wire.fromBytes (Wire.toBytes ("\uFEFF" ++ t)) = .ok ("\uFEFF" ++ t) ∧
+    ByteBody.bodyVerdict (Wire.toBytes ("\uFEFF" ++ t)) = .malformed := by
+  have hd := ByteBody.fromBytes_toBytes ("\uFEFF" ++ t)
+  refine ⟨hd, ?_⟩
+  have hl : ("\uFEFF" ++ t).toList = Char.ofNat 0xFEFF :: t.toList := by
+    rw [String.toList_append]; rfl
+  have hm : JsonText.verdict ("\uFEFF" ++ t).toList = .malformed := by
+    rw [hl]; exact ByteBody.verdict_bad_first_char _ _ (by decide)
+  simp only [ByteBody.bodyVerdict, hd, hm]
+
+/-- A body whose bytes are valid UTF-8 of a text RFC 8259 rejects: the dispatcher is handed exactly that
+    text (`decode_exact`: it re-encodes to the bytes received) and answers the single −32700 error object,
+    nothing is invoked. -/
+theorem C05_body_malformed (s : Server) (loads : List Char → ParseOutcome)
+    (hstrict : ∀ t, t ≠ [] → JsonText.verdict t = .malformed → loads t = .parseError)
+    (b : Wire.Bytes) (h : ByteBody.bodyVerdict b = .malformed) :
+    ∃ text, Wire.fromBytes b = .ok text ∧ Wire.toBytes text = b ∧
+      marshaledDispatchBody s text.toList.isEmpty (loads text.toList) =
+        (.ok (.doc (Payload.error s.cfg.version .none (.int (-32700)) (.str msgParse) .none)), []) := by
+  unfold ByteBody.bodyVerdict at h
+  cases hd : Wire.fromBytes b with
+  | error e => simp [hd] at h
+  | ok text =>
+    simp only [hd] at h
+    cases hv : JsonText.verdict text.toList with
+    | wellFormed => simp [hv] at h
+    | malformed =>
+      exact ⟨text, rfl, ByteBody.decode_exact b text hd, C05_malformed_text s loads hstrict text.toList hv⟩
+
+/-- A body that is not valid UTF-8 never reaches the dispatcher: `do_POST` answers 500 with the fault text,
+    whatever the dispatcher would have done (two dispatchers give the same reply: neither is called). -/
+theorem C05_body_undecodable (m n : Nat) (ct ft : String) (stream : Wire.Bytes) (reads : List Nat)
+    (h : ByteBody.bodyVerdict (Wire.readLoop m n stream reads).flatten = .undecodable)
+    (d₁ d₂ : String → Wire.TryOutcome) :
+    Wire.doPost m ct ft (some n) stream reads d₁ = Wire.doPost m ct ft (some n) stream reads d₂ ∧
+    (Wire.doPost m ct ft (some n) stream reads d₁).1 = 500 := by
+  unfold ByteBody.bodyVerdict at h
+  cases hd : Wire.fromBytes (Wire.readLoop m n stream reads).flatten with
+  | ok text =>
+    simp only [hd] at h
+    cases hv : JsonText.verdict text.toList <;> simp [hv] at h
+  | error e =>
+    simp [Wire.doPost, Wire.serverBody, hd, Wire.doPostReply]
+
+/- Non-vacuity: the body of the seeded edit (BOM + request) is malformed, the bare request is not; UTF-16 bytes of
+   an ASCII request are valid UTF-8 (NUL between the characters) and malformed; FF FE … is undecodable. -/
+example : ByteBody.bodyVerdict (Wire.toBytes "\uFEFF{\"id\":1}") = .malformed := by decide +kernel
+example : ByteBody.bodyVerdict (Wire.toBytes "{\"id\":1}") = .wellFormed := by decide +kernel
+example : ByteBody.bodyVerdict [0x7B, 0x00, 0x7D, 0x00] = .malformed := by decide +kernel
+example : ByteBody.bodyVerdict [0xFF, 0xFE, 0x7B, 0x00, 0x7D, 0x00] = .undecodable := by decide +kernel
+example : ByteBody.bodyVerdict [0xC0, 0xAF] = .undecodable ∧ ByteBody.bodyVerdict [0xED, 0xA0, 0x80] = .undecodable := by
+  decide +kernel
+example : ByteBody.canStart (Char.ofNat 0xFEFF) = false ∧ ByteBody.canStart (Char.ofNat 0) = false ∧ ByteBody.canStart '{' = true := by
+  decide
+example : JsonText.verdict "{\"method\":\"m\"}".toList = .wellFormed ∧ JsonText.startsClosed "{\"method\":\"m\"}".toList = true ∧
+    JsonText.isWs 'x' = false ∧ JsonText.verdict "{\"method\":\"m\"} x".toList = .malformed := by
+  decide +kernel
+example : JsonText.allWs ['\n', ' '] = true ∧
+    JsonText.verdict ("\n{\"jsonrpc\":\"2.0\",\"method\":\"note\",\"params\":[1]} ").toList = .wellFormed := by
+  decide +kernel
 
 /- ---------- −32600 ---------- -/
 
